@@ -79,6 +79,18 @@ if os.path.exists(extra):
     mod = importlib.util.module_from_spec(spec); spec.loader.exec_module(mod)
     mod.extend(add, NA, SIMNOTE)
 
+ADDENDA = {
+ 'C01': ' Sub-graphs of one to three members, a second (edge-less or empty) sub-graph node, graphs built with the full form of the DepGraph constructor.',
+ 'C02': ' Also: tasks that iterate over the environment while it grows, updates that are mappings without being dicts (MappingProxyType, UserDict, ChainMap), graphs built with the full form of the DepGraph constructor, one-member sub-graphs.',
+ 'C03': ' Also: results that cannot even be inspected (dead weak proxies, sequences whose len() raises), open handles in the entries of the initial environment; a thread that keeps the baton without taking a step for the wall-clock guard is a violation (no-progress:spinning), a slow run that still takes steps is not.',
+ 'C04': ' Exceptions raised by tasks may carry an open handle; chains of a few hundred tasks; 36 000 histories in the quick tier.',
+ 'C11': ' The corpus also holds listings with any one table row missing and the listings of the documentation notebooks (a few crash points each).',
+ 'C14': ' Damaged files include valid pickles of the Env class with another state; a read or write that never returns is a violation (SIGALRM watchdog in the shard), not a harness error.',
+ 'C19': ' A run that never comes back (a spinning directory-creation loop, a child blocked on a full pipe) is a violation; the shard stops after it.',
+}
+for prop, text in ADDENDA.items():
+    CHECKS[prop]['level_claimed']['text'] += text
+
 for prop in sorted(CHECKS):
     manifest['checks'].append(CHECKS[prop])
 for prop in sorted(NA):
